@@ -31,7 +31,8 @@ RULE = ('histories of 5-40 operations {touch/new identity, new key (EC P-256, RS
         'identity/key/certificate, delete certificate/key/identity, get_signer in every documented argument form incl. '
         'key_locator overrides shared between keys, close+reopen}; fault sequences: k-th execute/commit/save_key/os.remove of '
         'an operation raises, operation repeated; crash points: connection abandoned at step k and reopened; distinct = the '
-        'operation-kind sequence (+ fault position); non-trivial = at least two identities or keys alive')
+        'operation-kind sequence (+ fault position); non-trivial = at least two identities or keys alive'
+        '; identity names nested in each other / containing KEY, caller-chosen key ids (repeated), deletions through the Identity/Key views')
 
 C = lambda s: rc.comp(8, s)   # noqa
 
